@@ -18,6 +18,7 @@ GEN = 'src/control/group/generic.rs'
 SERDE = 'src/external_trait_impls/serde.rs'
 SET = 'src/set.rs'
 MAP = 'src/map.rs'
+RAYON_RAW = 'src/external_trait_impls/rayon/raw.rs'
 
 
 def I(file, ctx, fn, impl=None, key=None, nth=None, rename=None):
@@ -331,6 +332,24 @@ UNITS = {
             I(RAW, r'^impl RawTableInner$', 'buckets', impl='RawTableInner'),
             I(RAW, r'^impl RawTableInner$', 'num_ctrl_bytes', impl='RawTableInner'),
             I(RAW, r'^impl < T : Clone , A : Allocator \+ Clone > RawTable < T , A >$', 'clone_from_impl', impl='RawTable<T>', key='RawTable::clone_from_impl'),
+        ],
+    ),
+    # C19: rayon's draining producer
+    'pardrain': dict(
+        widths=[16, 8],
+        prelude='preludes/iter.rs',
+        prelude_extra=['preludes/pardrain.rs'],
+        specs=['contracts/iter.vspec', 'contracts/pardrain.vspec'],
+        lemmas=['lemmas/iter_lemmas.rs', 'lemmas/pardrain_lemmas.rs'],
+        extra='pardrain_rules',
+        items=[
+            I(RAW, r'^impl < T > RawIterRange < T >$', 'new', impl='RawIterRange<T>', key='RawIterRange::new'),
+            I(RAW, r'^impl < T > RawIterRange < T >$', 'split', impl='RawIterRange<T>', key='RawIterRange::split'),
+            I(RAW, r'^impl < T > RawIterRange < T >$', 'next_impl', impl='RawIterRange<T>', key='RawIterRange::next_impl'),
+            I(RAW, r'^impl < T > Iterator for RawIterRange < T >$', 'next', impl='RawIterRange<T>', key='RawIterRange::next'),
+            I(RAYON_RAW, r'^impl < T > Drop for ParDrainProducer < T >$', 'drop', impl='ParDrainProducer<T>', key='ParDrainProducer::drop'),
+            dict(I(RAYON_RAW, r'^impl < T : Send > UnindexedProducer for ParDrainProducer < T >$', 'fold_with', impl='ParDrainProducer<T>', key='ParDrainProducer::fold_with'), value_type=['T'], drop_aware=True),
+            dict(I(RAYON_RAW, r'^impl < T : Send > UnindexedProducer for ParDrainProducer < T >$', 'split', impl='ParDrainProducer<T>', key='ParDrainProducer::split'), value_type=['T']),
         ],
     ),
 }
@@ -1310,6 +1329,97 @@ def clone_rules(toks, i, out, hit):
     return ctrl_rules(toks, i, out, hit)
 
 
+
+def pardrain_rules(toks, i, out, hit):
+    """unit `pardrain` (on top of iter_rules):
+       R7e  `for X in &mut E {` -> `loop { match E.next() { Some(X) => {..} None => { break; } } }`
+       R33  `E.map(|x| F)` on an Option -> `match E { Some(x) => Some(F), None => None }`
+       R34  `folder.consume(unsafe { item.read() })` -> `folder.consume_bucket(&item)`
+       R35  a by-value `mut self` whose type has a Drop impl: taken as `self_: &mut Self`; every `return E;` that is not
+            preceded by `mem::forget(self)` first runs `self_.drop();` (what Rust does implicitly); `mem::forget(self)` ->
+            `forget_producer_ref(self_)`
+       R36  `ParDrainProducer { iter: X }` -> `ParDrainProducer::from_iter(X)`;  `mem::needs_drop::<T>()` -> `needs_drop::<T>()`"""
+    t = toks[i]
+    n = len(toks)
+    T = extract.T
+
+    def seq(k, *texts):
+        return k + len(texts) <= n and all(toks[k + a].text == x for a, x in enumerate(texts))
+    if t.kind == 'id' and t.text == 'fn' and i + 1 < n and toks[i + 1].kind == 'id':
+        _FLAGS['byref_self'] = False
+    if _FLAGS.get('sig') and t.text == 'mut' and seq(i + 1, 'self') and out and out[-1].text == '(' and _FLAGS.get('drop_aware'):
+        out.extend([T('self_', ''), T(':', ''), T('&'), T('mut', ''), T('Self')])
+        _FLAGS['byref_self'] = True
+        hit('R35_by_value_self_with_drop_taken_by_mut_ref')
+        return i + 2
+    if _FLAGS.get('sig') and t.text == 'mut' and seq(i + 1, 'folder', ':', 'F'):
+        # the consumer is an ordinary by-value `mut` parameter here (R16), not a closure (R17)
+        _FLAGS['rebind'].append('folder')
+        out.extend([T('folder', t.gap), T(':', ''), T('F')])
+        hit('R16_mut_param_rebound')
+        return i + 4
+    if _FLAGS.get('byref_self') and not _FLAGS.get('sig'):
+        if t.kind == 'id' and t.text == 'self':
+            out.append(T('self_', t.gap))
+            return i + 1
+        if t.kind == 'id' and t.text == 'return':
+            out.extend([T('self_', t.gap), T('.', ''), T('drop', ''), T('(', ''), T(')', ''), T(';', ''), T('return')])
+            hit('R35_implicit_drop_before_return_written_out')
+            return i + 1
+        if t.text == 'mem' and seq(i + 1, ':', ':', 'forget', '(', 'self', ')'):
+            out.extend([T('forget_producer_ref', t.gap), T('(', ''), T('self_', ''), T(')', '')])
+            hit('R35_forget_marks_the_producer')
+            return i + 7
+    if t.text == 'mem' and seq(i + 1, ':', ':', 'forget', '(', 'self', ')'):
+        out.extend([T('forget_producer', t.gap), T('(', ''), T('self', ''), T(')', '')])
+        hit('R35_forget_marks_the_producer')
+        return i + 7
+    if t.text == 'mem' and seq(i + 1, ':', ':', 'needs_drop', ':', ':', '<', 'T', '>', '(', ')'):
+        out.extend([T('needs_drop', t.gap), T(':', ''), T(':', ''), T('<', ''), T('T', ''), T('>', ''), T('(', ''), T(')', '')])
+        hit('R21_NEEDS_DROP_to_opaque_fn')
+        return i + 11
+    if t.text == 'ParDrainProducer' and seq(i + 1, '{', 'iter', ':') and toks[i + 4].kind == 'id' and seq(i + 5, '}'):
+        out.extend([T('ParDrainProducer', t.gap), T(':', ''), T(':', ''), T('from_iter', ''), T('(', ''), T(toks[i + 4].text, ''), T(')', '')])
+        hit('R36_struct_literal_to_constructor')
+        return i + 6
+    if t.text == '.' and seq(i + 1, 'map', '(', '|') and toks[i + 4].kind == 'id' and seq(i + 5, '|'):
+        c = extract._find_close(toks, i + 2)
+        F = extract.rewrite(toks[i + 6:c], set(), _HITS, pardrain_rules)
+        x = toks[i + 4].text
+        k = len(out) - 1
+        while k >= 0 and out[k].text not in ('=', ';', '{', '}', '(', ','):
+            k -= 1
+        recv = out[k + 1:]
+        del out[k + 1:]
+        out.extend([T('match')] + recv + [T('{'), T('Some'), T('(', ''), T(x, ''), T(')', ''), T('='), T('>', ''), T('Some'), T('(', '')] + F + [T(')', ''), T(',', ''),
+                    T('None'), T('='), T('>', ''), T('None'), T(',', ''), T('}')])
+        hit('R33_option_map_to_match')
+        return c + 1
+    if t.text == 'folder' and seq(i + 1, '.', 'consume', '(', 'unsafe', '{', 'item', '.', 'read', '(', ')', '}', ')'):
+        out.extend([T('folder', t.gap), T('.', ''), T('consume_bucket', ''), T('(', ''), T('&', ''), T('item', ''), T(')', '')])
+        hit('R34_consume_of_moved_out_element')
+        return i + 13
+    if t.kind == 'id' and t.text == 'for' and out and out[-1].text in (';', '{', '}') and toks[i + 1].kind == 'id' and seq(i + 2, 'in', '&', 'mut'):
+        k = i + 5
+        while toks[k].text != '{':
+            k += 1
+        E = extract.rewrite(toks[i + 5:k], set(), _HITS, pardrain_rules)
+        close = extract._find_close(toks, k)
+        body = extract.rewrite(toks[k + 1:close], set(), _HITS, pardrain_rules)
+        out.extend([T('loop', t.gap), T('{'), T('match')] + E + [T('.', ''), T('next', ''), T('(', ''), T(')', ''), T('{'),
+                    T('Some'), T('(', ''), T(toks[i + 1].text, ''), T(')', ''), T('='), T('>', ''), T('{')])
+        out.extend(body)
+        out.extend([T('}', '\n'), T('None'), T('='), T('>', ''), T('{'), T('break'), T(';', ''), T('}'), T('}', '\n'), T('}', '\n')])
+        hit('R7e_for_over_mut_ref_iterator_to_loop')
+        return close + 1
+    if t.text == 'item' and seq(i + 1, '.', 'drop', '(', ')'):
+        sn = 'self_' if _FLAGS.get('byref_self') else 'self'
+        out.extend([T(sn, t.gap), T('.', ''), T('drop_bucket', ''), T('(', ''), T('&', ''), T('item', ''), T(')', '')])
+        hit('R21_bucket_drop_recorded')
+        return i + 5
+    return iter_rules(toks, i, out, hit)
+
+
 def generate(unit_name, width, outdir):
     u = UNITS[unit_name]
     specs = {}
@@ -1326,6 +1436,7 @@ def generate(unit_name, width, outdir):
         spec = specs.get(it['key'])
         _FLAGS['value_type'] = it.get('value_type')
         _FLAGS['in_drain'] = it.get('in_drain')
+        _FLAGS['drop_aware'] = it.get('drop_aware')
         if spec is None:
             raise ExtractError('no contract for %s in %s' % (it['key'], u['specs']))
         if it.get('closure'):
